@@ -58,6 +58,31 @@ pub struct CeremonyTrace {
     pub perm_seeds: Vec<u64>,
     pub io_seed: u64,
     pub labels: Vec<String>,
+    /// (position in `authorized`, declared scheme): that key is presented as the same key material
+    /// declared with another signature scheme
+    #[serde(default)]
+    pub auth_scheme: Vec<(usize, String)>,
+    /// (position in `authorized`, key index): that key object is deserialized from JSON whose "keyid"
+    /// member carries the other key's id
+    #[serde(default)]
+    pub auth_json_alias: Vec<(usize, usize)>,
+}
+
+/// The same key material declared with another scheme (None if the library refuses to build it).
+pub fn redeclared(k: &keys::Key, scheme: &str) -> Option<PublicKey> {
+    let spki = k.public.as_spki().ok()?;
+    let s = match scheme {
+        "ed25519" => in_toto::crypto::SignatureScheme::Ed25519,
+        "ecdsa-sha2-nistp256" => in_toto::crypto::SignatureScheme::EcdsaP256Sha256,
+        "rsassa-pss-sha256" => in_toto::crypto::SignatureScheme::RsaSsaPssSha256,
+        "rsassa-pss-sha512" => in_toto::crypto::SignatureScheme::RsaSsaPssSha512,
+        o => in_toto::crypto::SignatureScheme::Unknown(o.to_string()),
+    };
+    PublicKey::from_spki(&spki, s).ok()
+}
+
+pub fn key_id_string(k: &PublicKey) -> String {
+    serde_json::to_value(k.key_id()).ok().and_then(|v| v.as_str().map(|s| s.to_string())).unwrap_or_default()
 }
 
 pub fn body_value(b: &BodySpec, keys: &[KeySpec]) -> Value {
@@ -205,7 +230,23 @@ pub fn finish(t: &CeremonyTrace, p: &Prepared) -> CeremonyOutcome {
             out.sig_truth.push((id.clone(), content_same && orig_pairs.contains(&(id, sv))));
         }
     }
-    let auth: Vec<PublicKey> = t.authorized.iter().map(|k| keys::key(t.keys[*k]).public.clone()).collect();
+    let mut auth: Vec<PublicKey> = t.authorized.iter().map(|k| keys::key(t.keys[*k]).public.clone()).collect();
+    for (pos, scheme) in &t.auth_scheme {
+        if let Some(k) = t.authorized.get(*pos) {
+            if let Some(pk) = redeclared(&keys::key(t.keys[*k]), scheme) {
+                auth[*pos] = pk;
+            }
+        }
+    }
+    for (pos, other) in &t.auth_json_alias {
+        if let (Some(k), Some(o)) = (t.authorized.get(*pos), t.keys.get(*other)) {
+            let mut j = keys::key(t.keys[*k]).public_json();
+            j["keyid"] = json!(keys::key(*o).id.clone());
+            if let Ok(pk) = serde_json::from_value::<PublicKey>(j) {
+                auth[*pos] = pk;
+            }
+        }
+    }
     let reps = t.hash_seeds.len().max(1);
     for rep in 0..reps {
         let mut p = parsed.clone();
@@ -243,7 +284,21 @@ pub fn judge_ceremony(t: &CeremonyTrace, o: &CeremonyOutcome) -> Vec<Finding> {
     if o.unsignable.is_some() || !o.parsed {
         return f;
     }
-    let auth_ids: BTreeSet<String> = t.authorized.iter().map(|k| keys::key(t.keys[*k]).id.clone()).collect();
+    // identities of the presented keys: a key declared with another scheme is another identity
+    // (nobody signed with it); a JSON alias of a key is the same identity as the key itself
+    let mut auth_ids: BTreeSet<String> = BTreeSet::new();
+    for (pos, k) in t.authorized.iter().enumerate() {
+        match t.auth_scheme.iter().find(|(p, _)| *p == pos) {
+            Some((_, scheme)) => {
+                if let Some(pk) = redeclared(&keys::key(t.keys[*k]), scheme) {
+                    auth_ids.insert(key_id_string(&pk));
+                }
+            }
+            None => {
+                auth_ids.insert(keys::key(t.keys[*k]).id.clone());
+            }
+        }
+    }
     let counting: BTreeSet<&String> = o.sig_truth.iter().filter(|(id, v)| *v && auth_ids.contains(id)).map(|(id, _)| id).collect();
     let mut per_label: BTreeMap<&String, usize> = BTreeMap::new();
     for (id, _) in &o.sig_truth {
@@ -386,10 +441,17 @@ fn fold(t: &CeremonyTrace, o: &CeremonyOutcome, findings: Vec<Finding>, rec: &mu
     own
 }
 
-fn exec_prepared(t: &CeremonyTrace, p: &Prepared, rec: &mut RunRecord, seed: u64, index: u64, prop: &str) -> Vec<Finding> {
+fn exec_prepared(t: &CeremonyTrace, p: &Prepared, rec: &mut RunRecord, seed: u64, index: u64, prop: &str, history: Option<&CeremonyTrace>) -> Vec<Finding> {
     let o = finish(t, p);
     let f = judge_ceremony(t, &o);
-    fold(t, &o, f, rec, seed, index, prop)
+    let before = rec.own.len();
+    let r = fold(t, &o, f, rec, seed, index, prop);
+    if let Some(h) = history {
+        for v in rec.own.iter_mut().skip(before) {
+            v.trace = Trace::Seq(vec![Trace::Ceremony(h.clone()), v.trace.clone()]);
+        }
+    }
+    r
 }
 
 fn exec_and_fold(t: &CeremonyTrace, rec: &mut RunRecord, seed: u64, index: u64, prop: &str) -> Vec<Finding> {
@@ -477,6 +539,8 @@ fn base_trace(seed: u64, tier: Tier, mode: Mode) -> (CeremonyTrace, Rng) {
         perm_seeds: (0..reps).map(|i| if i == 0 { 0 } else { hr.next() | 1 }).collect(),
         io_seed: hr.next(),
         labels: vec![],
+        auth_scheme: vec![],
+        auth_json_alias: vec![],
     };
     (t, r)
 }
@@ -510,6 +574,19 @@ pub fn run_c04(tier: Tier, seed: u64, index: u64, rec: &mut RunRecord) {
             t.authorized = vec![outsider, outsider + 1];
             t.labels.push("AUTH-DISJOINT".into());
         }
+    }
+    if r.chance(1, 8) && !t.authorized.is_empty() {
+        // one key listed twice, the second time as a key object deserialized from JSON that names
+        // another key's id; its signature is repeated under that id
+        let pos = r.idx(t.authorized.len());
+        let k = t.authorized[pos];
+        t.authorized.push(k);
+        let alias_key = outsider + 1;
+        t.auth_json_alias.push((t.authorized.len() - 1, alias_key));
+        if let Some(sp) = t.signers.iter().position(|s| *s == k) {
+            t.ops.push(DocOp::SigDupAs { at: sp, to: alias_key });
+        }
+        t.labels.push("AUTH-JSON-ALIAS".into());
     }
     t.threshold = match r.weighted(&[10, 30, 30, 15, 10, 5]) {
         0 => 0,
@@ -597,27 +674,53 @@ pub fn run_c09(tier: Tier, seed: u64, index: u64, rec: &mut RunRecord) {
         n2.labels = vec!["SIGFLIP".into()];
         exec_and_fold(&n2, rec, seed, index, "C09");
     }
-    // negative 3: same key material declared with another scheme (RSA-PSS 256 <-> 512)
-    for (i, s) in t.signers.clone().iter().enumerate() {
-        let other = match t.keys[*s].kind {
-            KeyKind::Rsa2048S256 => Some(KeyKind::Rsa2048S512),
-            KeyKind::Rsa2048S512 => Some(KeyKind::Rsa2048S256),
-            KeyKind::Rsa4096S256 => Some(KeyKind::Rsa4096S512),
-            KeyKind::Rsa4096S512 => Some(KeyKind::Rsa4096S256),
-            _ => None,
+    // negative 3: the same key material declared with another scheme — the signature is presented
+    // under the re-declared key's id, so that it is really checked against that key
+    for (i, sidx) in t.signers.clone().iter().enumerate() {
+        let own = match t.keys[*sidx].kind {
+            KeyKind::Ed | KeyKind::EdPk8 => "ed25519",
+            KeyKind::Ecdsa => "ecdsa-sha2-nistp256",
+            KeyKind::Rsa2048S256 | KeyKind::Rsa4096S256 => "rsassa-pss-sha256",
+            KeyKind::Rsa2048S512 | KeyKind::Rsa4096S512 => "rsassa-pss-sha512",
         };
-        if let Some(ok) = other {
+        for other in ["ed25519", "ecdsa-sha2-nistp256", "rsassa-pss-sha256", "rsassa-pss-sha512"] {
+            if other == own {
+                continue;
+            }
+            let k = keys::key(t.keys[*sidx]);
+            let pk = match redeclared(&k, other) {
+                Some(p) => p,
+                None => continue,
+            };
             let mut n3 = t.clone();
-            n3.keys.push(KeySpec { kind: ok, seed: 0 });
-            let idx = n3.keys.len() - 1;
-            n3.authorized[i] = idx;
-            // present the signature under the other scheme's key id, so that it is really checked
-            n3.ops.push(DocOp::Relabel { at: i, to: idx });
-            n3.labels = vec!["SCHEME-RELABEL".into()];
+            n3.auth_scheme = vec![(i, other.to_string())];
+            n3.ops.push(DocOp::RelabelId { at: i, id: key_id_string(&pk) });
+            n3.labels = vec!["SCHEME-REDECLARED".into()];
             exec_and_fold(&n3, rec, seed, index, "C09");
-            rec.probe("same RSA key material under the other PSS scheme");
+            rec.probe("same key material declared with another scheme");
+            // and without relabelling: the re-declared key simply is another key
+            let mut n4 = t.clone();
+            n4.auth_scheme = vec![(i, other.to_string())];
+            n4.labels = vec!["SCHEME-REDECLARED-NOLABEL".into()];
+            exec_and_fold(&n4, rec, seed, index, "C09");
         }
     }
+}
+
+/// Words with a meaning of their own in the wire format: an edit to another word of the same class
+/// still parses and changes what is enforced.
+fn alternates(s: &str) -> Vec<&'static str> {
+    const RULES: [&str; 6] = ["CREATE", "DELETE", "MODIFY", "ALLOW", "REQUIRE", "DISALLOW"];
+    const SCHEMES: [&str; 4] = ["ed25519", "ecdsa-sha2-nistp256", "rsassa-pss-sha256", "rsassa-pss-sha512"];
+    const TYPES: [&str; 3] = ["ed25519", "ecdsa", "rsa"];
+    const ALGS: [&str; 2] = ["sha256", "sha512"];
+    let mut v: Vec<&'static str> = vec![];
+    for class in [&RULES[..], &SCHEMES[..], &TYPES[..], &ALGS[..], &["MATERIALS", "PRODUCTS"][..], &["link", "layout", "step", "inspection"][..]] {
+        if class.contains(&s) {
+            v.extend(class.iter().filter(|x| **x != s));
+        }
+    }
+    v
 }
 
 /// The property's near-collision edits for one string.
@@ -653,9 +756,23 @@ pub fn run_c05(tier: Tier, seed: u64, index: u64, rec: &mut RunRecord) {
     // threshold 1 over all signers (any valid signature makes it Ok)
     let signed = body_value(&t.body, &t.keys);
     let prepared = prepare(&t);
+    // the genuine document is verified first (it must verify), as a consumer would have done before
+    // an edited copy shows up; it is the history of every edit below
+    let mut genuine = t.clone();
+    genuine.labels = vec!["GENUINE".into()];
+    {
+        let o = finish(&genuine, &prepared);
+        if o.unsignable.is_none() && o.parsed && !o.results.iter().all(|r| r.is_ok()) {
+            let f = vec![Finding { prop: "C09".into(), clause: "own-signature-rejected-after-wire".into(), detail: format!("genuine document: {:?}", o.results) }];
+            fold(&genuine, &o, f, rec, seed, index, "C05");
+        } else {
+            fold(&genuine, &o, vec![], rec, seed, index, "C05");
+        }
+    }
     let mut ls = vec![];
     gen::leaves(&signed, "/signed", &mut ls);
     let _ = tier;
+    c05_container_edits(&t, &prepared, &genuine, &signed, rec, seed, index);
     for (ptr, old) in &ls {
         let mut edits: Vec<DocOp> = vec![];
         // one generic mutation of the same JSON type
@@ -667,6 +784,26 @@ pub fn run_c05(tier: Tier, seed: u64, index: u64, rec: &mut RunRecord) {
                 }
                 edits.push(DocOp::Set { ptr: ptr.clone(), value: Value::Null });
                 edits.push(DocOp::Set { ptr: ptr.clone(), value: json!("") });
+                for a in alternates(s) {
+                    edits.push(DocOp::Set { ptr: ptr.clone(), value: json!(a) });
+                }
+                // a MATCH rule: splice an empty source / destination prefix in
+                if s == "MATCH" && ptr.ends_with("/0") {
+                    let arr = ptr[..ptr.len() - 2].to_string();
+                    let rel = arr.strip_prefix("/signed").unwrap_or(&arr);
+                    if let Some(a) = signed.pointer(rel).and_then(|x| x.as_array()) {
+                        let strs: Vec<&str> = a.iter().filter_map(|x| x.as_str()).collect();
+                        if strs.get(2) == Some(&"WITH") {
+                            edits.push(DocOp::Insert { ptr: arr.clone(), index: 2, values: vec![json!("IN"), json!("")] });
+                            edits.push(DocOp::Insert { ptr: arr.clone(), index: 2, values: vec![json!("IN"), json!(".")] });
+                        }
+                        if let Some(w) = strs.iter().position(|x| *x == "WITH") {
+                            if strs.get(w + 2) == Some(&"FROM") {
+                                edits.push(DocOp::Insert { ptr: arr.clone(), index: w + 2, values: vec![json!("IN"), json!("")] });
+                            }
+                        }
+                    }
+                }
             }
             Value::Number(n) => {
                 if let Some(u) = n.as_u64() {
@@ -704,13 +841,21 @@ pub fn run_c05(tier: Tier, seed: u64, index: u64, rec: &mut RunRecord) {
                             DocOp::Set { ptr: format!("{parent}/{}", i + 1), value: json!(b2) },
                         ];
                         tt.labels = vec!["ARRAY-BOUNDARY".into()];
-                        exec_prepared(&tt, &prepared, rec, seed, index, "C05");
+                        exec_prepared(&tt, &prepared, rec, seed, index, "C05", Some(&genuine));
                     }
                 }
                 // duplicate the element
                 edits.push(DocOp::Set { ptr: format!("{parent}/{}", 99999), value: old.clone() });
             } else {
-                // object member: swap key and value when both are strings; rename the key
+                // object member: rename the key (to another word of its class, or by one character)
+                {
+                    let key = ptr[pos + 1..].replace("~1", "/").replace("~0", "~");
+                    for a in alternates(&key) {
+                        edits.push(DocOp::Rename { ptr: ptr.clone(), to: a.to_string() });
+                    }
+                    edits.push(DocOp::Rename { ptr: ptr.clone(), to: format!("{key}x") });
+                }
+                // object member: swap key and value when both are strings
                 if let Value::String(v) = old {
                     let parent = &ptr[..pos];
                     let key = ptr[pos + 1..].replace("~1", "/").replace("~0", "~");
@@ -718,7 +863,7 @@ pub fn run_c05(tier: Tier, seed: u64, index: u64, rec: &mut RunRecord) {
                     let esc = v.replace('~', "~0").replace('/', "~1");
                     tt.ops = vec![DocOp::Remove { ptr: ptr.clone() }, DocOp::Set { ptr: format!("{parent}/{esc}"), value: json!(key) }];
                     tt.labels = vec!["KEY-VALUE-SWAP".into()];
-                    exec_prepared(&tt, &prepared, rec, seed, index, "C05");
+                    exec_prepared(&tt, &prepared, rec, seed, index, "C05", Some(&genuine));
                 }
             }
         }
@@ -726,7 +871,38 @@ pub fn run_c05(tier: Tier, seed: u64, index: u64, rec: &mut RunRecord) {
             let mut tt = t.clone();
             tt.ops = vec![e];
             tt.labels = vec!["EDIT".into()];
-            exec_prepared(&tt, &prepared, rec, seed, index, "C05");
+            exec_prepared(&tt, &prepared, rec, seed, index, "C05", Some(&genuine));
+        }
+    }
+}
+
+fn c05_container_edits(t: &CeremonyTrace, prepared: &Prepared, genuine: &CeremonyTrace, signed: &Value, rec: &mut RunRecord, seed: u64, index: u64) {
+    // whole members / elements: drop, rename (objects), duplicate or swap with the neighbour (arrays)
+    let mut cs = vec![];
+    gen::containers(signed, "/signed", &mut cs);
+    for ptr in cs {
+        let mut edits = vec![DocOp::Remove { ptr: ptr.clone() }];
+        if let Some(pos) = ptr.rfind('/') {
+            let last = &ptr[pos + 1..];
+            let parent = &ptr[..pos];
+            if let Ok(i) = last.parse::<usize>() {
+                let rel = parent.strip_prefix("/signed").unwrap_or(parent);
+                if let Some(arr) = signed.pointer(rel).and_then(|x| x.as_array()) {
+                    if let Some(x) = arr.get(i) {
+                        edits.push(DocOp::Insert { ptr: parent.to_string(), index: i, values: vec![x.clone()] });
+                    }
+                }
+            } else {
+                let key = last.replace("~1", "/").replace("~0", "~");
+                edits.push(DocOp::Rename { ptr: ptr.clone(), to: format!("{key}x") });
+                edits.push(DocOp::Rename { ptr: ptr.clone(), to: format!("./{key}") });
+            }
+        }
+        for e in edits {
+            let mut tt = t.clone();
+            tt.ops = vec![e];
+            tt.labels = vec!["EDIT-CONTAINER".into()];
+            exec_prepared(&tt, prepared, rec, seed, index, "C05", Some(genuine));
         }
     }
 }
@@ -735,8 +911,11 @@ pub fn replay(prop: &str, t: &CeremonyTrace, rec: &mut RunRecord) -> Vec<Finding
     exec_and_fold(t, rec, 0, 0, prop)
 }
 
-pub fn minimise(prop: &str, clause: &str, t: &CeremonyTrace) -> (CeremonyTrace, bool) {
+pub fn minimise(prop: &str, clause: &str, t: &CeremonyTrace, history: Option<&CeremonyTrace>) -> (CeremonyTrace, bool) {
     let still = |c: &CeremonyTrace| {
+        if let Some(h) = history {
+            let _ = run_ceremony(h);
+        }
         let o = run_ceremony(c);
         judge_ceremony(c, &o).iter().any(|f| f.prop == prop && f.clause == clause)
     };
